@@ -1,5 +1,7 @@
 import Ivg.Lemmas.GenQ
-import Ivg.Gen.Tie
+import Ivg.Gen.Tie.DrawOps
+import Ivg.Gen.Tie.GenerateErrors
+import Ivg.Gen.Tie.Magic
 import Ivg.Obligations
 /-!
 # C20 — SVG path data in the generator, transforms, and the Material-Design converter
@@ -222,4 +224,4 @@ end Ivg.Props.C20
   Ivg.Props.C20.md_normalize, Ivg.Props.C20.md_normalize_hv, Ivg.Props.C20.md_map_eq,
   Ivg.Props.C20.opacity_decision, Ivg.Props.C20.opacity_table, Ivg.Props.C20.opacity_registers,
   Ivg.Props.C20.circles_two_arcs, Ivg.Props.C20.circle_calls, Ivg.Props.C20.circle_endpoints,
-  Ivg.Gen.Tie.drawOps_tie, Ivg.Gen.Tie.magic_tie, Ivg.Gen.Tie.errorStrings_tie]
+  Ivg.Gen.Tie.drawOps_tie, Ivg.Gen.Tie.magic_tie, Ivg.Gen.Tie.generateErrors_tie]
